@@ -87,6 +87,16 @@ MUT += [
 ]
 
 
+MUT += [
+    ("M80", "penguin/src/client/mod.rs", "                Err(ref e) if !e.retryable() => return r,", "                Err(ref e) if e.retryable() => return r,", ["C19"], ["C19"]),
+    ("M81", "penguin/src/client/maybe_retryable.rs", "            Self::HandshakeTimeout | Self::StreamRequestTimeout | Self::ServerDisconnected => true,", "            Self::HandshakeTimeout | Self::ServerDisconnected => true,", ["C19"], ["C19"]),
+    ("M82", "penguin/src/client/maybe_retryable.rs", "            Self::KeepaliveTimeout | Self::SendStreamToClient | Self::Closed => true,", "            Self::SendStreamToClient | Self::Closed => true,", ["C19", "C16"], ["C1"]),
+    ("M83", "penguin/src/client/mod.rs", "            // The multiplexor has closed for some reason\n            else => return Err(Error::ServerDisconnected),", "            // The multiplexor has closed for some reason\n            else => break,", ["C19"], ["C19"]),
+    ("M84", "penguin/src/client/mod.rs", "    let options = penguin_mux::config::Options::new()\n        .keepalive_interval(args.keepalive)\n        .keepalive_timeout(args.keepalive_timeout);", "    let options = penguin_mux::config::Options::new()\n        .keepalive_timeout(args.keepalive_timeout)\n        .keepalive_interval(args.keepalive);", ["C16", "C19"], ["C16"]),
+    ("M85", "penguin/src/client/mod.rs", "                    if time::timeout(current_retry_interval, tokio::signal::ctrl_c())\n                        .await\n                        .is_ok()", "                    if time::timeout(Duration::from_millis(args.max_retry_interval), tokio::signal::ctrl_c())\n                        .await\n                        .is_ok()", ["C19"], ["C19"]),
+]
+
+
 # behaviour-preserving refactors: every listed check must stay silent
 EQUIV = [
     ("E01", "penguin-mux/src/stream.rs", "if new >= self.rwnd_threshold {", "if !(new < self.rwnd_threshold) {", ["C03"]),
